@@ -171,7 +171,8 @@ def finish(ctx: Ctx, error: str | None = None):
         out.append("VIOLATION property=%s replay=%s" % (ctx.prop, p))
     if error:
         out.append("ANALYSIS-ERROR property=%s %s" % (ctx.prop, error))
-    code = 2 if error else (1 if new else 0)
+    # a concrete, individually justified finding outranks a later analysis error
+    code = 1 if new else (2 if error else 0)
 
     # ---- evidence ------------------------------------------------------
     obs = ctx.obligations
